@@ -793,6 +793,14 @@ def rt_cases(prop):
             S('top', [J('r1', outcome='raise'), J('r2', yields=4), J('x1', duration=5), J('x2', duration=5),
                       J('c')], [(2, 0), (3, 0), (4, 0), (4, 1)], window=2),
             S('top', [S('in', [J('x', shutdown_duration=3)], shutdown_timeout=0.125), J('b', duration=2)]),
+            # a tolerated failure first, a critical one later, along chains of critical / non-critical schedulers
+            S('top', [S('n1', [S('n2', [J('t', outcome='raise'), J('x', duration=2, critical=True, outcome='raise')],
+                                 critical=True)], critical=True), J('y', duration=5)], critical=True),
+            S('top', [S('n1', [S('n2', [J('t', outcome='raise'), J('x', duration=2, critical=True, outcome='raise')],
+                                 critical=True), J('t1', outcome='raise', duration=0)], critical=True), J('y', duration=5)]),
+            S('top', [S('n1', [S('n2', [J('t', outcome='raise'), J('x', duration=2, critical=True, outcome='raise')],
+                                 critical=True), J('z', duration=4)], critical=False), J('y', duration=5)], critical=True),
+            S('top', [S('n1', [J('t', outcome='raise'), J('u', duration=3)], timeout=2, critical=True), J('y', duration=5)]),
         ]
         for sp in fixed:
             yield {'kind': 'rt', 'prop': prop, 'spec': sp}
@@ -800,7 +808,10 @@ def rt_cases(prop):
             seed = rng.randrange(1 << 30)
             r2 = random.Random(seed)
             if prop == 'C10':
-                yield {'kind': 'rt-c10', 'prop': prop, 'spec': RT.gen_c10(r2)}
+                if i % 2:
+                    yield {'kind': 'rt-c10', 'prop': prop, 'spec': RT.gen_c10(r2)}
+                else:
+                    yield {'kind': 'rt-c10s', 'prop': prop, 'spec': RT.gen_chain(r2)}
                 continue
             sp = RT.gen_tree(r2)
             if prop == 'C06':
@@ -818,12 +829,14 @@ def rt_run(case):
         return RT.o_c06(case['spec'], case['spec2'], case['flipped'])
     if case['kind'] == 'rt-c10':
         return RT.o_c10(case['spec'])
+    if case['kind'] == 'rt-c10s':
+        return RT.run_oracle('C10', case['spec'])
     if case['prop'] in ('C06', 'C10'):
         # fixed scenarios: checked through the pairing of the property
         if case['prop'] == 'C06':
             sp2, fl = RT.c06_pair(case['spec'], random.Random(1))
             return RT.o_c06(case['spec'], sp2, fl) if fl else None
-        return None
+        return RT.run_oracle('C10', case['spec'])
     return RT.run_oracle(case['prop'], case['spec'])
 
 
